@@ -436,6 +436,23 @@ fn handle_parse_node<Data: GarnishData>(
                 _ => Err(CompilerError::new_message(format!("No build node at index {}", node_index)))?,
             };
 
+            // a side effect written right before this one is kept as its left, it runs first
+            let (state, containing) = (node.state, node.containing_expression_jump.clone());
+            match (state, parse_node.get_left()) {
+                (BuildNodeState::Uninitialized, Some(left)) if nodes[left].is_none() => {
+                    nodes[left] = Some(BuildNode::new(left, containing));
+                    stack.push(node_index);
+                    stack.push(left);
+                    return Ok(());
+                }
+                _ => {}
+            }
+
+            let node = match nodes.get_mut(node_index) {
+                Some(Some(node)) => node,
+                _ => Err(CompilerError::new_message(format!("No build node at index {}", node_index)))?,
+            };
+
             match node.state {
                 BuildNodeState::Uninitialized => {
                     node.state = BuildNodeState::Initialized;
